@@ -109,7 +109,8 @@ def run_docs(chk, recs, tag):
     meta = {}
     for n, r in enumerate(recs):
         doc = r["doc"]
-        files, spans = render.render_tree_project(doc)
+        # every third document with CRLF, every third with CR line ends (the placement rule does not know line ends)
+        files, spans = render.render_tree_project(doc, nl=("\n", "\r\n", "\r")[n % 3] if tag != "r" else r.get("nl", "\n"))
         cid = "%s%d" % (tag, n)
         cases.append({"id": cid, "files": {f: b64(t) for f, t in files.items()}, "root": "main.jst", "want": ["forest", "pastes"]})
         meta[cid] = (doc, files, spans, r)
@@ -128,7 +129,7 @@ def run_docs(chk, recs, tag):
             sig = {"devs": ",".join(sorted(r["impl"]["devs"])) or "none",
                    "matches_impl": "yes" if judge(doc, files, spans, r["impl"], o) is None else "no"}
             chk.violation(bad + " | document: " + data.decode()[:300].replace("\n", "\\n"),
-                          {"kind": "tree_doc", "doc": doc, "file": data.decode(), "files": {f: t.decode() for f, t in files.items()}, "expected": r["out"],
+                          {"kind": "tree_doc", "doc": doc, "nl": ("\n", "\r\n", "\r")[int(cid[len(tag):]) % 3] if tag != "r" else r.get("nl", "\n"), "file": data.decode(), "files": {f: t.decode() for f, t in files.items()}, "expected": r["out"],
                            "expected_from": "JSightTree!Meaning(doc)", "observed": o, "signature": sig}, sig)
     return agree_impl, len(meta)
 
@@ -209,5 +210,5 @@ def main(tier, only_replay=None):
 def replay(path):
     rp = json.load(open(path))["replay"]
     chk = Check("C06", "quick")
-    run_docs(chk, [{"doc": rp["doc"], "out": rp["expected"], "impl": {"v": "", "at": 0, "par": [], "devs": []}}], "r")
+    run_docs(chk, [{"doc": rp["doc"], "out": rp["expected"], "nl": rp.get("nl", "\n"), "impl": {"v": "", "at": 0, "par": [], "devs": []}}], "r")
     return chk.finish()
